@@ -878,6 +878,11 @@ impl<'c, Q: Queue> Interp<'c, Q> {
                 (self.q.clone().iter_mut_adapt(comp, a, b), v)
             }
             ItKind::Sorted => {
+                if !self.order_on {
+                    // after a leaked iter_mut guard (or late writes) the order is unspecified: the sorted
+                    // iterator has no order contract to be judged against
+                    return;
+                }
                 self.opname = "adaptor_sorted";
                 CUR_STEP.with(|c| c.set((self.step, self.opname)));
                 let mut v = Vec::new();
